@@ -1,6 +1,7 @@
 package checks
 
 import (
+	"flag"
 	"fmt"
 	"math/rand"
 	"runtime"
@@ -259,10 +260,15 @@ func runC20(c *core.Ctx) {
 	// (i) an application that ends badly (its help lists a sub-command whose spec is ill-formed: Run panics, the caller
 	// recovers; an Action that panics; an Action that exits) leaves nothing behind: whatever runs next, accepted or
 	// rejected (a rejection prints a usage message), completes with its solo outcome
-	for k := 0; k < 8; k++ {
+	errBuf, outBuf := drive.CaptureShared()
+	for k := 0; k < 10; k++ {
 		var bad *drive.App
 		what := ""
-		switch k % 4 {
+		switch k % 5 {
+		case 4:
+			bad = drive.Single(&Prog{})
+			bad.Shared, bad.Version, bad.Policy = true, true, flag.ExitOnError
+			what = "an application asked for its version under ExitOnError (the exit function does not return)"
 		case 0, 1:
 			root := &drive.Cmd{Aliases: []string{"app"}, Prog: &Prog{}}
 			kid := &drive.Cmd{ID: 1, Aliases: []string{"broken"}, Prog: &Prog{Spec: []string{"[", "X", "-z", "(", "[-a", "A|"}[c.R.Intn(6)]}, Parent: root, Action: drive.Beh{Kind: drive.BehReturn}}
@@ -282,8 +288,11 @@ func runC20(c *core.Ctx) {
 			what = "an application whose Action exits and whose After panics"
 		}
 		badArgv := []string{}
-		if k%4 == 0 {
+		if k%5 == 0 {
 			badArgv = []string{"--help"}
+		}
+		if k%5 == 4 {
+			badArgv = []string{"--version"}
 		}
 		var ob *drive.Obs
 		done := make(chan struct{})
@@ -292,7 +301,7 @@ func runC20(c *core.Ctx) {
 			return
 		}
 		c.Eval()
-		if k%4 <= 1 && ob.SpecErr == nil {
+		if k%5 <= 1 && ob.SpecErr == nil {
 			c.Violation(what+" did not end with a spec error raised as a panic", map[string]interface{}{"events": ob.EventStr(), "panic": fmt.Sprint(ob.Pan), "err": fmt.Sprint(ob.Err)}, nil)
 			return
 		}
@@ -310,8 +319,22 @@ func runC20(c *core.Ctx) {
 				return
 			}
 			c.Inc("after_a_badly_ended_application_equal")
+			if pr.solo == "REJECT" && !strings.Contains(errBuf.String(), "Usage:") {
+				c.Violation("an application run after "+what+" was rejected but its usage did not reach the error stream", map[string]interface{}{"spec": pr.p.Spec, "argv": pr.argv, "stdout": truncateStr(outBuf.String(), 300)}, nil)
+				return
+			}
 		}
+		if k%5 == 4 && !strings.Contains(errBuf.String(), drive.VersionText) {
+			c.Violation("the version string did not reach the error stream", map[string]interface{}{"stderr": truncateStr(errBuf.String(), 300), "stdout": truncateStr(outBuf.String(), 300)}, nil)
+			return
+		}
+		if out := outBuf.String(); out != "" {
+			c.Violation("after "+what+", text meant for the error stream went to the standard-output stream", map[string]interface{}{"stdout": truncateStr(out, 300)}, nil)
+			return
+		}
+		errBuf, outBuf = drive.CaptureShared()
 	}
+	drive.Quiet()
 	for k := 0; k < 6 && len(accepted) >= 2; k++ {
 		a, b := accepted[c.R.Intn(len(accepted))], accepted[c.R.Intn(len(accepted))]
 		inner := ""
